@@ -339,6 +339,15 @@ pub fn parse_amount(input: &str) -> Result<f64, ParseError> {
         })
 }
 
+/// Are two amounts the same value?
+///
+/// Amounts are f64 sums of parsed decimals; they are equal when they differ by less than half of the
+/// smallest unit a SWIFT amount can carry (0.0001), allowing for the rounding noise of very large sums.
+pub fn amounts_equal(a: f64, b: f64) -> bool {
+    let noise = 8.0 * f64::EPSILON * a.abs().max(b.abs());
+    (a - b).abs() < 0.00005_f64.max(noise)
+}
+
 /// Validate amount decimal precision for a specific currency (C03 validation)
 ///
 /// SWIFT network validation rule C03 requires that the number of decimal places
